@@ -23,7 +23,9 @@ Record fstate := {
   fhist : list nat;
   fview : nat -> nat;
   fpcs : nat -> fpc;
-  returned : list (nat * nat * nat);     (* ghost: (thread, lower bound at call time, value returned) by fresh current() calls *)
+  returned : list (nat * nat * nat);     (* ghost: (thread, lo, value returned) by current() calls whose last frontier load was
+                                            fresh; lo = the first index with an unset flag when the call started, or 0 if one of
+                                            the call's flag loads was stale *)
 }.
 
 Definition finit (n : nat) : fstate :=
@@ -86,6 +88,8 @@ Definition fstep (s : fstate) (e : fevent) : option fstate :=
       match fpcs s t with
       | FAdv ret lo start e' =>
           if Nat.eqb e e' && Nat.ltb e (fn s) && (negb b || flags s e) then
+            (* a stale-false load forfeits the call's catch-up claim: its lower bound becomes 0 *)
+            let lo := if negb b && flags s e then 0 else lo in
             Some (setf s (flags s) (fhist s) (fview s)
                        (upd (fpcs s) t (if b then FAdv ret lo start (S e)
                                         else if Nat.eqb e start then (if ret then FCurRet lo else FIdle)
